@@ -101,6 +101,15 @@ func lcp(a, b string) string {
 	return a[:i]
 }
 
+// Text with characters the documented clean-up keeps: U+00A0, U+202F, U+3000 (spaces that are
+// not ASCII), U+200D inside an emoji family, U+200C between Persian letters, U+00AD soft hyphen,
+// U+2028 line separator, U+E000 private use, U+FEFF in the middle.
+const (
+	keptOneLine       = "Prix\u00a0: 10\u202f€\u3000ok 👨\u200d👩\u200d👧 می\u200cخواهم co\u00adop a\u2028b \ue000 x\ufeffy"
+	keptMultiLine     = "Prix\u00a0: 10\u202f€\r\nligne 2\ttab\u3000ok 👨\u200d👩\u200d👧\nمی\u200cخواهم co\u00adop a\u2028b\u2029c \ue000 x\ufeffy"
+	keptExistingLabel = "à\u00a0garder"
+)
+
 func gitDir(dir string) string { return filepath.Join(dir, "repo", ".git") }
 
 // buildWorld creates the repository every case starts from (then kept as a template).
@@ -157,7 +166,7 @@ func buildWorld(dir string) (*Meta, error) {
 	if err != nil {
 		return nil, err
 	}
-	if _, _, err := bug.ChangeLabels(tb, v, now(), []string{"existing"}, nil, nil); err != nil {
+	if _, _, err := bug.ChangeLabels(tb, v, now(), []string{"existing", keptExistingLabel}, nil, nil); err != nil {
 		return nil, err
 	}
 	if err := tb.Commit(repo); err != nil {
@@ -167,7 +176,7 @@ func buildWorld(dir string) (*Meta, error) {
 	m.CidFull = entity.CombineIds(tb.Id(), commentOp.Id()).String()
 	m.CidCreate = entity.CombineIds(tb.Id(), createOp.Id()).String()
 	m.CommentOp, m.CreateOp = commentOp.Id().String(), createOp.Id().String()
-	m.BugInfos = append(m.BugInfos, BugInfo{Id: m.Target, Title: "target bug", Labels: []string{"existing"}})
+	m.BugInfos = append(m.BugInfos, BugInfo{Id: m.Target, Title: "target bug", Labels: []string{"existing", keptExistingLabel}})
 	for _, op := range []entity.Id{createOp.Id(), commentOp.Id(), thirdOp.Id()} {
 		m.Comments = append(m.Comments, CommentInfo{Cid: entity.CombineIds(tb.Id(), op).String(), Bug: m.Target, Op: op.String()})
 	}
@@ -346,6 +355,22 @@ func (m *Meta) value(tag string) any {
 		return "no-such-repo"
 	case "cm.x":
 		return "client-mutation-1"
+	case "title.kept":
+		return keptOneLine
+	case "title.kept-ends":
+		return "\u00a0\u3000 framed by\u00a0spaces\u2028\u3000\u00a0"
+	case "msg.kept":
+		return keptMultiLine
+	case "msg.kept-ends":
+		return "\u3000\u00a0\r\nframed\u202fmessage\u2029\u00a0\r\n"
+	case "label.kept":
+		return "à\u00a0faire"
+	case "label.kept2":
+		return "می\u200cخواهم\u00adx\ue000\ufeffy 👨\u200d👩\u200d👧\u3000z"
+	case "label.existing-kept":
+		return keptExistingLabel
+	case "str.kept":
+		return keptOneLine
 	case "title.new":
 		return "a new title"
 	case "title.ctrl":
